@@ -374,6 +374,28 @@ class C15(Check):
             bad("closed:lost", dict(params=p))
         if cfg.binning.num_bins != len(cfg.binning.edges) - 1 or cfg.binning.zmin != cfg.binning.edges[0]:
             bad("binning:accessors", dict(params=p))
+        # a configuration carries the parameters it was given (None where nothing was given)
+        for key in ("rweight", "resolution"):
+            got_v, want_v = getattr(cfg.scales, key), p.get(key)
+            if (got_v is None) != (want_v is None) or (want_v is not None and float(got_v) != float(want_v)):
+                bad(f"create:parameter-not-kept:{key}", dict(params=p, got=got_v))
+        if str(cfg.scales.unit) != p["unit"]:
+            bad("create:parameter-not-kept:unit", dict(params=p, got=str(cfg.scales.unit)))
+        # dictionary form: building from it is repeatable and leaves the dictionary alone
+        if not str(p.get("cosmology", "")).startswith(("custom", "flcdm")):
+            import copy as _copy
+
+            try:
+                d = cfg.to_dict()
+                frozen = _copy.deepcopy(d)
+                first = Configuration.from_dict(d)
+                second = Configuration.from_dict(d)
+                if d != frozen:
+                    bad("from_dict:modifies-its-argument", dict(params=p, before=frozen, after=d))
+                if not (first == cfg and second == cfg and describe(second) == describe(cfg)):
+                    bad("from_dict:second-build-from-the-same-dict-differs", dict(params=p, first=describe(first), second=describe(second)))
+            except Exception as e:
+                bad(f"from_dict:raises-{type(e).__name__}", dict(params=p, error=str(e)[:200]))
 
         # angles
         zs = [float(cfg.binning.binning.mids[0]), float(cfg.binning.binning.mids[-1]), 0.75]
@@ -497,6 +519,23 @@ class C15(Check):
                         bad("modify:scales-sub-config-differs-from-create", dict(params=p, delta=delta))
                 except Exception as e:
                     bad(f"modify:scales-sub-config-raises-{type(e).__name__}", dict(params=p, delta=delta, error=str(e)[:200]))
+            if len(delta) >= 2 and set(delta) <= skeys | {"closed", "max_workers"} and not isinstance(got, Exception):
+                # the same modification in two steps (either order) ends at the same configuration
+                keys = sorted(delta)
+                groups = [("rmin", "rmax")]
+                first_keys = [k for k in keys if k in ("rmin", "rmax", "resolution")] or keys[:1]
+                rest_keys = [k for k in keys if k not in first_keys]
+                if rest_keys:
+                    for order in ((first_keys, rest_keys), (rest_keys, first_keys)):
+                        try:
+                            two = cfg.modify(**realise({k: delta[k] for k in order[0]})).modify(**realise({k: delta[k] for k in order[1]}))
+                            if two.to_dict() != got.to_dict():
+                                bad("modify:two-steps-differ-from-one", dict(params=p, delta=delta, order=[list(o) for o in order],
+                                                                             two=two.to_dict()["scales"], one=got.to_dict()["scales"]))
+                                break
+                        except Exception:
+                            pass  # an intermediate state may be invalid on its own (e.g. rmin alone above the old rmax)
+                _ = groups
             if describe(cfg) != before:
                 bad("modify:mutates-original", dict(params=p, delta=delta))
             # structural equality: a modification that changed scales, edges, closed side or
